@@ -61,7 +61,7 @@ Outcome(R, n, kw, k) ==
         ELSE o
 
 (* E0: an Exception whose instances are falsy; B1: a BaseException; CE: a CancelledError raised by a body itself *)
-IsExc(cls) == cls \in {"E0", "E1", "E2", "E3", "ET"}       \* ET: a TimeoutError
+IsExc(cls) == cls \in {"E0", "E1", "E2", "E3", "ET", "SI"}       \* SI: a StopIteration (surfaces as RuntimeError)       \* ET: a TimeoutError
 Matches(cls, excs) ==
     \E i \in 1..Len(excs) : excs[i] = cls \/ (excs[i] \in {"Exception", "PlanError"} /\ IsExc(cls)) \/ excs[i] = "BaseException"
 IsBaseTok(tok) == tok[1] = "err" /\ ~IsExc(tok[5])
